@@ -25,12 +25,13 @@ EXPLANATION = (
 )
 ASSUMPTIONS = ["payload values are opaque to the code (moved, never inspected)", "real JSON wire for the sent message"]
 TRUSTED = ["vt.sym explorer", "pydantic ScheduledTask (executed)"]
-BOUNDS = {"firings per run": 2, "tasks": "2 own + 1 foreign", "entries per task": "<= 3 quick / 4 thorough (task 1), <= 2 (task 2)", "distinct times": 2}
-REQUIRED_COVERS = ["cancelled", "sent", "async_pre", "sync_pre", "second_firing", "listing", "fired_time", "fired_cron", "duplicate_times", "foreign"]
+BOUNDS = {"firings per run": 2, "tasks": "2 own + 1 foreign", "entries per task": "<= 3 quick / 4 thorough (task 1), <= 2 (task 2)", "distinct times": "2 naive + 1 timezone-aware"}
+REQUIRED_COVERS = ["cancelled", "sent", "async_pre", "sync_pre", "second_firing", "listing", "fired_time", "fired_cron", "duplicate_times", "foreign", "aware_time"]
 
 T_A = dt.datetime(2030, 1, 1, 12, 0, 0)
 T_B = dt.datetime(2030, 1, 1, 12, 5, 0)
-ENTRY = ("cron", "timeA", "timeB", "invalid")
+T_C = dt.datetime(2030, 1, 1, 12, 0, 0, tzinfo=dt.timezone(dt.timedelta(hours=2)))  # timezone-aware declaration
+ENTRY = ("cron", "timeA", "timeB", "invalid", "timeC")
 
 
 def cases(tier: str, hname: str) -> List[Any]:
@@ -38,7 +39,7 @@ def cases(tier: str, hname: str) -> List[Any]:
         return [{"pre": p, "post": q} for p in ("sync", "async") for q in ("sync", "async", "default")]
     out = []
     n1 = 3 if tier == "quick" else 4
-    for e1 in itertools.product(range(4), repeat=n1):
+    for e1 in itertools.product(range(len(ENTRY)), repeat=n1):
         out.append({"t1": list(e1), "max1": n1})
     return out
 
@@ -140,6 +141,8 @@ def _entry(kind: str, k: int) -> Dict[str, Any]:
         e["time"] = T_A
     elif kind == "timeB":
         e["time"] = T_B
+    elif kind == "timeC":
+        e["time"] = T_C
     return e
 
 
@@ -155,6 +158,8 @@ def label_source(c: sym.Ctx, case: Dict[str, Any]) -> None:
         broker = make_broker(lab)
         kinds1 = [ENTRY[k] for k in case["t1"]][: c.choose(list(range(1, case.get("max1", 3) + 1)), "n1")]
         kinds2 = [ENTRY[c.choose(4, f"t2.{k}")] for k in range(c.choose([0, 1, 2], "n2"))]
+        if "timeC" in kinds1:
+            c.cover("aware_time")
         foreign = c.flag("foreign_task")
 
         async def fn(*a: Any) -> None:
